@@ -224,7 +224,7 @@ METHODS = {
     'Transitions': [('matrix', [()]), ('states_next', [()]), ('states_prev', [()])],
     'JumpsShared': [('matrix', [()]), ('counter', [()]), ('jump_diffusivity', [(3,)]), ('_counter', [()])],
     'Jumps': [('matrix', [()]), ('counter', [()]), ('_counter', [()]), ('jump_diffusivity', [(1,), (2,), (3,)]), ('collective', [(), (2.5,)]), ('rates', [(1,), (2,)]),
-              ('to_graph', [(), (-0.3, 0.4)]), ('activation_energies', [(1,), (2,)])],
+              ('to_graph', [(), (-0.3, 0.4), {'max_e_act': 0.25}, {'min_e_act': -0.2}, {'max_e_act': 0.1, 'min_e_act': -0.5}]), ('activation_energies', [(1,), (2,)])],
     'TrajectoryMetrics': [('speed', [()]), ('particle_density', [()]), ('mol_per_liter', [()]), ('tracer_diffusivity', [{'dimensions': 1}, {'dimensions': 3}]),
                           ('tracer_conductivity', [{'z_ion': 1, 'dimensions': 3}, {'z_ion': 2, 'dimensions': 2}]), ('attempt_frequency', [()]), ('vibration_amplitude', [()]),
                           ('amplitudes', [()]), ('haven_ratio', [{'dimensions': 3}]), ('tracer_diffusivity_center_of_mass', [{'dimensions': 3}])],
@@ -319,6 +319,8 @@ class RealMachine(LogMachine):
         args = arglist[ai % len(arglist)]
         a, kw = (args, {}) if isinstance(args, tuple) else ((), args)
         meth = getattr(o, name)
+        if name == 'to_graph' and kw:
+            gcall(meth, allow=(ValueError, ZeroDivisionError, IndexError, KeyError))  # the unrestricted graph first
         got = gcall(meth, *a, **kw, allow=(ValueError, ZeroDivisionError, IndexError, KeyError))
         got2 = gcall(meth, *a, **kw, allow=(ValueError, ZeroDivisionError, IndexError, KeyError))
         self.cached.add(h)
@@ -419,7 +421,7 @@ class RealMachine(LogMachine):
     def r_new(self, k, kind):
         self.step({'op': 'new', 'k': k, 'kind': kind})
 
-    @rule(i=st.integers(0, 30), m=st.integers(0, 12), a=st.integers(0, 3))
+    @rule(i=st.integers(0, 30), m=st.integers(0, 12), a=st.integers(0, 5))
     def r_call(self, i, m, a):
         self.step({'op': 'call', 'i': i, 'm': m, 'a': a})
 
